@@ -316,7 +316,10 @@ func decodeCiscoDiscoveryInfo(data []byte, p gopacket.PacketBuilder) error {
 			l := len(v)
 			if l%5 == 0 && l >= 5 {
 				for len(v) > 0 {
-					_, ipnet, _ := net.ParseCIDR(fmt.Sprintf("%d.%d.%d.%d/%d", v[0], v[1], v[2], v[3], v[4]))
+					_, ipnet, err := net.ParseCIDR(fmt.Sprintf("%d.%d.%d.%d/%d", v[0], v[1], v[2], v[3], v[4]))
+					if err != nil || ipnet == nil {
+						return fmt.Errorf("Invalid IP prefix %d.%d.%d.%d/%d", v[0], v[1], v[2], v[3], v[4])
+					}
 					info.IPPrefixes = append(info.IPPrefixes, *ipnet)
 					v = v[5:]
 				}
@@ -411,7 +414,7 @@ func decodeCiscoDiscoveryInfo(data []byte, p gopacket.PacketBuilder) error {
 			}
 			info.PowerRequest.ID = binary.BigEndian.Uint16(val.Value[0:2])
 			info.PowerRequest.MgmtID = binary.BigEndian.Uint16(val.Value[2:4])
-			for n := 4; n < len(val.Value); n += 4 {
+			for n := 4; n+4 <= len(val.Value); n += 4 {
 				info.PowerRequest.Values = append(info.PowerRequest.Values, binary.BigEndian.Uint32(val.Value[n:n+4]))
 			}
 		case CDPTLVPowerAvailable:
@@ -420,7 +423,7 @@ func decodeCiscoDiscoveryInfo(data []byte, p gopacket.PacketBuilder) error {
 			}
 			info.PowerAvailable.ID = binary.BigEndian.Uint16(val.Value[0:2])
 			info.PowerAvailable.MgmtID = binary.BigEndian.Uint16(val.Value[2:4])
-			for n := 4; n < len(val.Value); n += 4 {
+			for n := 4; n+4 <= len(val.Value); n += 4 {
 				info.PowerAvailable.Values = append(info.PowerAvailable.Values, binary.BigEndian.Uint32(val.Value[n:n+4]))
 			}
 			//		case CDPTLVPortUnidirectional
@@ -530,11 +533,17 @@ func decodeAddresses(v []byte) (addresses []net.IP, err error) {
 			(prottype == CDPProtocolType802_2 && protlen != 3 && protlen != 8) { // invalid length
 			return nil, fmt.Errorf("Invalid Address Protocol length %d", protlen)
 		}
+		if len(v) < 2+protlen+2 {
+			return nil, fmt.Errorf("Invalid Address TLV length %d", len(v))
+		}
 		plen := make([]byte, 8)
 		copy(plen[8-protlen:], v[2:2+protlen])
 		protocol := CDPAddressType(binary.BigEndian.Uint64(plen))
 		v = v[2+protlen:]
-		addrlen := binary.BigEndian.Uint16(v[0:2])
+		addrlen := int(binary.BigEndian.Uint16(v[0:2]))
+		if len(v) < 2+addrlen {
+			return nil, fmt.Errorf("Invalid Address TLV length %d", len(v))
+		}
 		ab := v[2 : 2+addrlen]
 		if protocol == CDPAddressTypeIPV4 && addrlen == 4 {
 			addresses = append(addresses, net.IPv4(ab[0], ab[1], ab[2], ab[3]))
